@@ -43,6 +43,8 @@ typedef struct {
   int64_t  t_inject;
   int      acceptable;  /* classified at injection time (prov monitor) */
   int      txidx;       /* transmission it answers (-1 if none) */
+  int64_t  t_read;      /* when the library read it from the socket (0 = never) */
+  int      epoch_read;  /* configuration epoch at that time */
 } sim_pktinfo_t;
 
 static sim_pktinfo_t sim_pktinfo[SIM_MAXPKT];
@@ -255,6 +257,8 @@ static int      app_dnsrec_flags_from_aiflags; /* cache profile: RD/CD of raw dn
 static vh_rng_t sim_rng;   /* scheduler / network randomness */
 static vh_rng_t seg_rng;   /* transport chopping only (so that A/B runs draw the same sim_rng sequence) */
 static int      sim_no_subms_jitter; /* fixed server delays (A/B differential) */
+static int      sim_fifo_events; /* fire simultaneous events in insertion order */
+static int      sim_zerolen_with_udp_reply; /* servers add an empty datagram next to every UDP reply */
 static int      sim_destroyed; /* channel destroyed */
 static int      sim_in_destroy;
 
@@ -839,6 +843,10 @@ static ares_ssize_t vs_recvfrom(ares_socket_t s, void *buf, size_t len, int flag
       v->rx_tail = NULL;
     }
     vh_trace("recvfrom(%d) udp %zu bytes serial %u", (int)s, n, p->serial);
+    if (p->serial && p->serial <= sim_npkt && sim_pktinfo[p->serial - 1].t_read == 0) {
+      sim_pktinfo[p->serial - 1].t_read     = sim_now_us;
+      sim_pktinfo[p->serial - 1].epoch_read = ck_epoch;
+    }
     sim_pkt_free(p);
     return (ares_ssize_t)n;
   }
@@ -857,6 +865,10 @@ static ares_ssize_t vs_recvfrom(ares_socket_t s, void *buf, size_t len, int flag
     memcpy(buf, p->data + p->off, n);
     p->off += n;
     if (p->off >= p->len) {
+      if (p->serial && p->serial <= sim_npkt && sim_pktinfo[p->serial - 1].t_read == 0) {
+        sim_pktinfo[p->serial - 1].t_read     = sim_now_us;
+        sim_pktinfo[p->serial - 1].epoch_read = ck_epoch;
+      }
       v->rx_head = p->next;
       if (v->rx_head == NULL) {
         v->rx_tail = NULL;
